@@ -18,6 +18,22 @@ CLAIMS = {
         "is executed on exact rationals and on i32/i64/f32/f64, recorded, and each record is recomputed by TLC from the specification. Inputs are sampled, so 'for all inputs' is "
         "reached in the Schwartz-Zippel sense, not symbolically."),
   design="§6 C01, §12"),
+ "C04": dict(
+  technique=TRACE_TECH,
+  text=("TLC model-checks on the specification (random tuples over Z_46337 with c,s free on the unit circle; exact rationals for the orientation laws) that RotX/Y/Z, the 2D rotation and "
+        "Rodrigues' formula are orthogonal with determinant +1, compose additively about a common axis, fix their axis, turn counter-clockwise in a right-handed frame, agree with each other on the "
+        "basis axes, embed as the upper-left block, and equal the matrix of the half-angle quaternion. Every rotation builder of the real code (rotation_/rotated_/rotate_ x,y,z,3d on Mat2/Mat3/Mat4 in "
+        "both layouts, non-normalised axes, From<Quaternion> for Mat3/Mat4, the 12 quaternion rotation builders, Vec2 rotation) is executed on angle tokens with exact rational cos/sin and each "
+        "recorded result is recomputed by TLC (cos/sin rebuilt from the token, axis length witnessed and checked)."),
+  design="§6 C04, §12"),
+ "C05": dict(
+  technique=TRACE_TECH,
+  text=("TLC model-checks on the specification the Hamilton algebra laws (associativity, identity, multiplicative norm, conjugate reverses products, two-sided inverse, ij=k), the identity "
+        "q v conj(q) - M(q) v = (N(q)-1) v for all q, composition of actions and that M is a homomorphism on unit quaternions. Every quaternion operator, conversion, q*Vec3/q*Vec4 (unit and non-unit q), "
+        "normalisation, rotation_from_to_3d (Quaternion, Mat3, Mat4, both layouts; opposite, parallel and general direction pairs with rational geometry) and into_angle_axis of the real code is "
+        "executed on exact rationals; formula-valued results are recomputed by TLC, from-to and angle-axis results are tested by TLC against what they must do (map from/|from| onto to/|to| as a unit / "
+        "proper rotation; Rodrigues(angle, axis) equals the quaternion's matrix)."),
+  design="§6 C05, §12"),
  "C06": dict(
   technique=TRACE_TECH,
   text=("TLC model-checks on the specification that the Leibniz determinant is transpose-invariant and multiplicative, that A*adj(A)=adj(A)*A=det(A)*I and that the "
@@ -27,6 +43,21 @@ CLAIMS = {
         "with scales from 2^-19 to 8) is executed on exact rationals (and i32/i64/f32/f64 for determinants), recorded, and TLC recomputes each result from the specification and "
         "multiplies the recorded inverse back to the identity on both sides. Inputs are sampled, not symbolic."),
   design="§6 C06, §12"),
+ "C07": dict(
+  technique="TLA+ builder-chain state machine (MC_Chain) explored exhaustively by TLC; every enumerated chain replayed on the real code (both layouts, returning and in-place forms) and the recorded matrices validated by TLC trace validation",
+  text=("TLC explores every builder chain of up to 3 (quick) / 4 (thorough) calls for each matrix size over {translate_2d/3d, scale_2d/3d, shear_x/y, rotate_x/y/z/3d} and checks on the "
+        "specification that the accumulated matrix acts on a point like the steps applied one after the other in call order; the laws run also checks each constructor against its point-wise "
+        "definition (translation leaves directions alone, w=1/w=0 helpers) and the Transform map p -> position + orientation*(scale . p). Every enumerated chain is replayed on the real row-major "
+        "and column-major types in returning and in-place form with random exact parameters; the matrix after every call, all constructors, mul_point/mul_direction(_2d), Mat4::from(Transform) "
+        "(uniform and non-uniform scale, default) and longer random chains are recorded and recomputed by TLC."),
+  design="§6 C07, §12"),
+ "C09": dict(
+  technique="TLA+ spec of the look-at / change-of-basis axioms over exact rationals (ordered field) model-checked by TLC; matrices recorded from the real code validated against the axioms by TLC trace validation",
+  text=("TLC checks over exact rationals that the textbook frame matrix satisfies the look-at axioms and that local_to_basis/basis_to_local place origin and axes and invert each other on "
+        "orthonormal bases. Every look_at_lh/rh, deprecated look_at, model_look_at_* call (both layouts) is executed on rational orthonormal frames with free eye, distance and up vector and the "
+        "recorded matrix is tested by TLC against the axioms of the statement (rigid, det +1, eye -> origin, target -> (0,0,+-d) with the sign of the handedness, up in the upper half-plane; model "
+        "matrix = inverse, origin -> eye), which determine it uniquely; change-of-basis results are recomputed and re-applied to origin and axes. Exact sampling, not symbolic in eye/target/up."),
+  design="§6 C09, §12"),
  "C17": dict(
   technique="TLA+ spec (VekOps/VekOpsAlgo) model-checked by TLC exhaustively per bit width; TLC-emitted result tables replayed into the real code (spec->code conformance)",
   text=("TLC checks exhaustively (every (x,lo,hi) of 5-bit types in quick, 8-bit in thorough) that the declarative operators satisfy the range laws of the "
